@@ -56,7 +56,7 @@ func init() {
 			{ID: "C11-R30", Title: "an option of the VM sets its field whatever the value is (shared with C14-R26)", Floor: 1, Run: vmOptionsSetWhatTheyAreGiven},
 			{ID: "C11-R31", Title: "what is noted as the configuration's own is the copy", Floor: 1, Run: whatIsNotedAsOwnIsTheCopy},
 			{ID: "C11-R32", Title: "removals are applied also when an override fails", Floor: 1, Run: removalsAreAppliedAlsoWhenAnOverrideFails},
-			{ID: "C11-R33", Title: "a module copy has tables of its own", Floor: 2, Run: aModuleCopyHasTablesOfItsOwn},
+			{ID: "C11-R33", Title: "a module copy has tables of its own", Floor: 1, Run: aModuleCopyHasTablesOfItsOwn},
 		},
 	})
 }
